@@ -160,7 +160,10 @@ impl C11 {
                 self.probe(cx, &splice(a, b, k), "token-fault");
                 cx.count("fault.keyword");
             }
-            for r in ["17", "-0.5", "1e9", "-", ".", "1.2.3", "99999999999999999999999999999999999", ";", "\"unterminated", "\"\"", "#"] {
+            for r in ["17", "-0.5", "1e9", "-", ".", "1.2.3", "99999999999999999999999999999999999", ";", "\"unterminated", "\"\"", "#",
+                // numbers at the edges of what a 96-bit decimal / machine integers can hold
+                "79228162514264337593543950335", "-79228162514264337593543950335", "10000000000000000000000000000", "7922816251426433759354395034", "0.0000000000000000000000000001",
+                "9223372036854775807", "4294967296", "2147483648", "-2147483649", "5.99999999999999999999999999"] {
                 self.probe(cx, &splice(a, b, r), "token-fault");
                 cx.count("fault.literal");
             }
@@ -225,7 +228,7 @@ impl Prop for C11 {
     fn rule(&self) -> String {
         "Seeds: LEF texts from the independent renderer (random lexical style, with and without non-ASCII comments) and the repository's .lef files. Per seed: EVERY prefix at a character boundary plus mid-character cuts (invalid UTF-8 must surface as an I/O error); for EVERY token: deleted, duplicated, swapped with its neighbour, \
          replaced by 12 keywords (6 rotating through the full keyword list + END/MACRO/LAYER/PROPERTY/BEGINEXT/PIN), by numbers (17, -0.5, 1e9, '-', '.', '1.2.3', a 35-digit number), by ';', by an unterminated string, by an empty string, by '#'; insertion of 2/3/4-byte characters, combining marks, BOM and non-ASCII whitespace (U+00A0, U+2003, U+2028) \
-         into names, numbers, string literals, comments and at line starts; CRLF conversion; random noise. Monitors on each LefLibrary::open: panic capture; logical step budgets via hooks (characters consumed <= chars+2, parser steps <= 40*tokens+200, error-report scan <= 201 chars per report); every Ok(lib) must survive to_string -> open without a crash. \
+         into names, numbers, string literals, comments and at line starts; CRLF conversion; whole libraries on one >200-byte line threaded with multi-byte characters and then truncated / faulted (error reports over long non-ASCII lines); numeric literals at the limits of 96-bit decimals and machine integers; random noise. Monitors on each LefLibrary::open: panic capture; logical step budgets via hooks (characters consumed <= chars+2, parser steps <= 40*tokens+200, error-report scan <= 201 chars per report); every Ok(lib) must survive to_string -> open without a crash. \
          distinct_nontrivial = distinct seed texts."
             .into()
     }
@@ -240,6 +243,7 @@ impl Prop for C11 {
             GenSpec::random("prefixes", tier.pick(200, 3_000)),
             GenSpec::random("token-faults", tier.pick(150, 2_500)),
             GenSpec::random("nonascii", tier.pick(1_500, 30_000)),
+            GenSpec::random("long-lines", tier.pick(1_000, 40_000)),
             GenSpec::enumerated("repo-files", 1),
             GenSpec::random("noise", tier.pick(100, 10_000)),
             GenSpec::enumerated("scaling", tier.pick(6, 9)),
@@ -285,6 +289,51 @@ impl Prop for C11 {
                 cx.nontrivial(crate::rt::prng::strhash(&text));
                 self.nonascii_faults(cx, &text);
                 cx.sample(|| json!({"seed_text": text.chars().take(300).collect::<String>()}));
+            }
+            "long-lines" => {
+                // LEF is whitespace-insensitive: put a whole library on ONE long line, thread runs of multi-byte characters through its names,
+                // then provoke errors (so that the error reporter must quote a >200-byte line full of non-ASCII text)
+                let cfg = LefCfg { max_macros: 2, max_pins: 2, ..Default::default() };
+                let g = rand_lef(&mut cx.rng, &cfg);
+                let (plain, _) = render(&g, &cfg, &mut cx.rng, Style::plain());
+                let (toks, _) = token_spans(&plain);
+                let mut line = String::new();
+                let mut bounds: Vec<usize> = Vec::new();
+                for (a, b) in &toks {
+                    let t = &plain[*a..*b];
+                    bounds.push(line.len());
+                    line.push_str(t);
+                    let is_name = t.chars().next().map_or(false, |c| c.is_ascii_alphabetic()) && !KEYWORDS.contains(&t.to_ascii_uppercase().as_str());
+                    if is_name && cx.rng.chance(1, 2) {
+                        for _ in 0..1 + cx.rng.usize(12) {
+                            line.push_str(*cx.rng.pick(&["é", "ß", "中", "語", "😀", "д", "Ω"]));
+                        }
+                    }
+                    line.push(' ');
+                }
+                cx.nontrivial(crate::rt::prng::strhash(&line));
+                cx.max("max.long_line_bytes", line.len() as u64);
+                // the names at END <name> no longer match: already an error case; plus truncations and token faults
+                self.probe(cx, line.as_bytes(), "long-line");
+                for _ in 0..12 {
+                    let cut = *cx.rng.pick(&bounds);
+                    self.probe(cx, line[..cut].as_bytes(), "long-line");
+                    let at = *cx.rng.pick(&bounds);
+                    let mut v = line[..at].to_string();
+                    v.push_str(*cx.rng.pick(&["; ", "END ", "\"x ", "17 ", "MACRO ", "é "]));
+                    v.push_str(&line[at..]);
+                    self.probe(cx, v.as_bytes(), "long-line");
+                }
+                // same, with a comment at the very start of the long line
+                let mut c = String::from("# ");
+                for _ in 0..cx.rng.usize(120) {
+                    c.push_str(*cx.rng.pick(&["é", "x", "中", " ", "😀"]));
+                }
+                let with_comment = format!("{}\n{}", c, line);
+                self.probe(cx, with_comment.as_bytes(), "long-line");
+                let long_comment_then_error = format!("VERSION 5.8 ; {} MACRO ;", c);
+                self.probe(cx, long_comment_then_error.as_bytes(), "long-line");
+                cx.sample(|| json!({"one_line_library_bytes": line.len(), "head": line.chars().take(200).collect::<String>()}));
             }
             "repo-files" => {
                 for d in REPO_LEF_DIRS {
